@@ -1,5 +1,7 @@
 import Irismod.Props.Tie_Token
 open Irismod.Props.Tie Irismod.Gen.PureToken Irismod.Sdk
+#print axioms token_effects_pinned
+#print axioms token_guards_pinned
 #print axioms token_all_translated
 #print axioms pow10_eq
 #print axioms LossLessSwap_eq_model
